@@ -997,7 +997,7 @@ impl Interp {
                 if *same {
                     self.do_same_price_move(id)
                 } else {
-                    let np = self.other_price();
+                    let np = self.other_price_for(id, *target);
                     self.do_remove(OrderUpdate::UpdatePrice { order_id: id, new_price: np }, id)
                 }
             }
@@ -1016,7 +1016,7 @@ impl Interp {
                         q,
                     )
                 } else {
-                    let np = self.other_price();
+                    let np = self.other_price_for(id, *target);
                     self.do_remove(
                         OrderUpdate::UpdatePriceAndQuantity { order_id: id, new_price: np, new_quantity: *qty },
                         id,
@@ -1034,7 +1034,7 @@ impl Interp {
                         q,
                     )
                 } else {
-                    let np = self.other_price();
+                    let np = self.other_price_for(id, *target);
                     self.do_remove(OrderUpdate::Replace { order_id: id, price: np, quantity: *qty, side }, id)
                 }
             }
@@ -1229,6 +1229,23 @@ impl Interp {
         } else {
             self.price + 1
         }
+    }
+
+    /// the price a move goes to: for an order that carries a price of its own (different from the
+    /// level's) that very price half of the time - the level's price decides, not the order's
+    fn other_price_for(&self, id: OrderId, t: Target) -> u64 {
+        let raw = match t {
+            Target::Resting(i) | Target::Pool(i) => i,
+        };
+        if raw & 1 == 1 {
+            if let Some(i) = self.find(id) {
+                let own = self.model[i].cur.price();
+                if own != self.price {
+                    return own;
+                }
+            }
+        }
+        self.other_price()
     }
 
     fn headroom(&self) -> u64 {
